@@ -156,6 +156,8 @@ fn module_name(gi: usize, algo: Algo, ascent: bool) -> String {
     format!("g{}_{}_{}", gi, algo.name(), if ascent { "a" } else { "t" })
 }
 
+type InputTuple = (usize, Vec<usize>, Vec<InTok>, Option<String>, Option<usize>);
+
 fn build_case(tape: &[u8], which: Which, n_inputs_scale: usize) -> Result<GramCase, String> {
     let opts = which.opts();
     let mut t = Tape::new(tape);
@@ -163,6 +165,20 @@ fn build_case(tape: &[u8], which: Which, n_inputs_scale: usize) -> Result<GramCa
         Which::C12 => gen::gen_prec(&mut t),
         _ => gen::gen_full(&mut t, &opts),
     };
+    case_from_spec(spec, tape, &mut t, which, n_inputs_scale, None)
+}
+
+/// Build the model side of a case. `fixed_inputs`: use exactly these inputs
+/// (replay) instead of generating them from the tape.
+fn case_from_spec(
+    spec: GSpec,
+    tape: &[u8],
+    t: &mut Tape,
+    which: Which,
+    n_inputs_scale: usize,
+    fixed_inputs: Option<Vec<InputTuple>>,
+) -> Result<GramCase, String> {
+    let mut t = t;
     let el = Elab::run(&spec, &BTreeSet::new()).map_err(|e| format!("{e:?}"))?;
     let macro_multi_inst = el.macro_insts.values().any(|&n| n >= 2);
     let conds_removed = el.conds_removed;
@@ -178,7 +194,14 @@ fn build_case(tape: &[u8], which: Which, n_inputs_scale: usize) -> Result<GramCa
     let usable: Vec<usize> = (0..core.term_names.len()).filter(|&c| Some(c) != core.error_term).collect();
     let starts: Vec<(usize, String)> = core.starts.iter().map(|&s| (s, core.nts[s].name.clone())).collect();
     let mut inputs = vec![];
+    let generate = fixed_inputs.is_none();
+    if let Some(fi) = fixed_inputs {
+        inputs = fi;
+    }
     for (si, (s, _)) in starts.iter().enumerate() {
+        if !generate {
+            break;
+        }
         if which == Which::C17 {
             // sentences only, each with poison flags and / or an injected stream error
             if spec.lexer == Lexer::Builtin {
@@ -395,29 +418,39 @@ fn evaluate(
     scale: usize,
     focus: Option<Vec<(Algo, bool)>>,
 ) -> Vec<Vec<Fail>> {
+    let dbg = std::env::var("VERIF_DEBUG").is_ok();
+    if std::env::var("VERIF_DEBUG").as_deref() == Ok("2") {
+        for (i, t) in tapes.iter().enumerate() {
+            eprintln!("case {i} tape {}", tape::hex(t));
+            let _ = build_case(t, which, scale);
+        }
+    }
+    let t0 = std::time::Instant::now();
+    let cases: Vec<Result<GramCase, String>> =
+        crate::core::par_map(tapes, ctx.threads, |_, t| build_case(t, which, scale));
+    if dbg {
+        eprintln!("[{:?}] built {} cases", t0.elapsed(), cases.len());
+    }
+    evaluate_cases(ctx, which, cases, name, ck, focus)
+}
+
+fn evaluate_cases(
+    ctx: &Ctx,
+    which: Which,
+    cases: Vec<Result<GramCase, String>>,
+    name: &str,
+    ck: Option<&mut Checker>,
+    focus: Option<Vec<(Algo, bool)>>,
+) -> Vec<Vec<Fail>> {
+    let dbg = std::env::var("VERIF_DEBUG").is_ok();
+    let t0 = std::time::Instant::now();
     let mut dummy = Checker::new(ctx.clone(), "exploration", "");
     let count = ck.is_some();
     let ck: &mut Checker = match ck {
         Some(c) => c,
         None => &mut dummy,
     };
-    let mut fails: Vec<Vec<Fail>> = vec![vec![]; tapes.len()];
-    let dbg = std::env::var("VERIF_DEBUG").is_ok();
-    let t0 = std::time::Instant::now();
-    if std::env::var("VERIF_DEBUG").as_deref() == Ok("2") {
-        for (i, t) in tapes.iter().enumerate() {
-            eprintln!("case {i} tape {}", tape::hex(t));
-            let mut tp = Tape::new(t);
-            let spec = gen::gen_full(&mut tp, &which.opts());
-            eprintln!("{}", spec.print(PrintCfg { lalr: false, ascent: false }));
-            let _ = build_case(t, which, scale);
-        }
-    }
-    let cases: Vec<Result<GramCase, String>> =
-        crate::core::par_map(tapes, ctx.threads, |_, t| build_case(t, which, scale));
-    if dbg {
-        eprintln!("[{:?}] built {} cases", t0.elapsed(), cases.len());
-    }
+    let mut fails: Vec<Vec<Fail>> = vec![vec![]; cases.len()];
     let vars = focus.unwrap_or_else(|| variants(which, ctx.tier == crate::core::Tier::Quick));
     let mut units = vec![];
     for (gi, c) in cases.iter().enumerate() {
@@ -503,6 +536,7 @@ fn evaluate(
                     replay: json!({
                         "which": which.id(),
                         "tape_hex": tape::hex(&c.tape),
+                        "spec": serde_json::to_value(&c.spec).unwrap_or(Value::Null),
                         "grammar": u.text,
                         "algo": u.algo.name(),
                         "ascent": ascent,
@@ -578,6 +612,8 @@ fn evaluate(
             json!({
                 "which": which.id(),
                 "tape_hex": tape::hex(&c.tape),
+                "spec": serde_json::to_value(&c.spec).unwrap_or(Value::Null),
+                "input": serde_json::to_value(&c.inputs[*ii]).unwrap_or(Value::Null),
                 "grammar": c.spec.print(PrintCfg { lalr: algo.needs_lalr_attr(), ascent }),
                 "algo": algo.name(),
                 "ascent": ascent,
@@ -1095,29 +1131,36 @@ fn shrink(ctx: &Ctx, which: Which, tape_in: &[u8], sig: &str, rounds: usize, foc
 }
 
 fn replay_case(ctx: &Ctx, which: Which, ck: &mut Checker, v: &Value) {
+    // self-contained: the stored GSpec and input are re-evaluated; the tape is
+    // kept for reference only
     let tape = tape::unhex(v["tape_hex"].as_str().unwrap_or(""));
-    // the stored grammar text must be what the tape decodes to (else the
-    // generator changed and the pinned repro must be regenerated)
-    match build_case(&tape, which, 2) {
-        Ok(c) => {
-            let algo = match v["algo"].as_str() {
-                Some("lr1") => Algo::Lr1,
-                Some("lalr") => Algo::Lalr,
-                _ => Algo::Lane,
-            };
-            let ascent = v["ascent"].as_bool().unwrap_or(false);
-            let text = c.spec.print(PrintCfg { lalr: algo.needs_lalr_attr(), ascent });
-            if Some(text.as_str()) != v["grammar"].as_str() {
-                ck.infra("pinned replay: tape no longer decodes to the stored grammar text (generator changed); regenerate the repro");
-                return;
-            }
-        }
+    let spec: GSpec = match serde_json::from_value(v["spec"].clone()) {
+        Ok(s) => s,
         Err(e) => {
-            ck.infra(format!("pinned replay: {e}"));
+            ck.infra(format!("pinned replay: cannot decode the stored grammar spec: {e}"));
             return;
         }
+    };
+    let inputs: Option<Vec<InputTuple>> = match serde_json::from_value::<InputTuple>(v["input"].clone()) {
+        Ok(i) => Some(vec![i]),
+        Err(_) => None,
+    };
+    let algo = match v["algo"].as_str() {
+        Some("lr1") => Algo::Lr1,
+        Some("lalr") => Algo::Lalr,
+        _ => Algo::Lane,
+    };
+    let ascent = v["ascent"].as_bool().unwrap_or(false);
+    let focus = if which == Which::C07 { vec![(algo, false), (algo, true)] } else { vec![(algo, ascent)] };
+    let mut t = Tape::new(&tape);
+    // C19 has no input: let the generator make a few (they are not used by its oracle)
+    let fixed = if inputs.is_some() { inputs } else { Some(vec![]) };
+    let case = case_from_spec(spec, &tape, &mut t, which, 1, fixed);
+    if let Err(e) = &case {
+        ck.infra(format!("pinned replay: {e}"));
+        return;
     }
-    let fails = evaluate(ctx, which, &[tape], "replay", None, 2, None);
+    let fails = evaluate_cases(ctx, which, vec![case], "replay", None, Some(focus));
     ck.eval();
     let want = v["signature"].as_str().unwrap_or("");
     for f in &fails[0] {
